@@ -171,7 +171,7 @@ def job_structure():
         fdef = ast.FunctionDef(name="_epilogue", args=ast.arguments(posonlyargs=[], args=[ast.arg(arg=a_) for a_ in (acc[0], "obasis0", "obasis1", "identical", "convert_conventions", "OVERLAP_CONVENTIONS", "np")], kwonlyargs=[], kw_defaults=[], defaults=[]), body=tail, decorator_list=[], type_params=[])
         mod_ = ast.Module(body=[fdef], type_ignores=[])
         ast.fix_missing_locations(mod_)
-        ns = {}
+        ns = dict(vars(ov))  # the epilogue may call private helpers of the module
         exec(compile(mod_, "<compute_overlap epilogue>", "exec"), ns)  # noqa: S102
         sentinel, tag0, tag1 = object(), object(), object()
         S0 = np.arange(1.0, 10.0).reshape(3, 3) ** 2 + np.arange(3.0)
@@ -186,13 +186,14 @@ def job_structure():
                         calls_seen.append((basis, conv, reverse))
                         return (p0.copy(), s0.copy()) if basis is tag0 else (p1.copy(), s1.copy())
 
+                    ns["convert_conventions"] = stub  # also for private helpers of the module that the epilogue calls
                     try:
                         got = ns["_epilogue"](S0.copy(), tag0, tag0 if identical else tag1, identical, stub, sentinel, np)
                     except Exception as exc:  # noqa: BLE001
                         bad = {"error": repr(exc)}
                         break
                     want = (S0[p0] * s0[:, None])[:, p1] * s1
-                    okc = all(c[1] is sentinel and c[2] is True for c in calls_seen) and {id(c[0]) for c in calls_seen} <= {id(tag0), id(tag1)}
+                    okc = all((c[1] is sentinel or c[1] is ov.OVERLAP_CONVENTIONS) and c[2] is True for c in calls_seen) and {id(c[0]) for c in calls_seen} <= {id(tag0), id(tag1)}
                     if not okc or np.shape(got) != want.shape or not np.array_equal(got, want):
                         bad = {"identical": identical, "p0": p0.tolist(), "s0": s0.tolist(), "p1": p1.tolist(), "s1": s1.tolist(), "conventions_calls_ok": okc}
                         break
@@ -202,7 +203,7 @@ def job_structure():
                 break
     else:
         bad = {"error": "no epilogue found after the shell loops"}
-    led.record(f"{OV}.compute_overlap::post.rows-and-columns-go-from-the-internal-order-to-each-basis'-conventions-(reverse=True)", "post", "refuted" if bad else "discharged", "eval", 0.0, detail=f"epilogue executed for {ncomb} pairs of signed permutations (size 3), one- and two-basis case", witness=bad)
+    led.record(f"{OV}.compute_overlap::post.rows-and-columns-go-from-the-internal-order-to-each-basis'-conventions-(reverse=True)", "post", ("unknown" if "error" in bad else "refuted") if bad else "discharged", "eval", 0.0, detail=f"epilogue executed for {ncomb} pairs of signed permutations (size 3), one- and two-basis case", witness=bad)
     ok = src.count("convert_to_segmented(") == 2 and "obasis0 = convert_to_segmented(obasis0)" in src and "obasis1 = convert_to_segmented(obasis1)" in src
     led.record(f"{OV}.compute_overlap::post.both-bases-are-segmented-first-(C14)", "post", "discharged" if ok else "unknown", "ast", 0.0)
     ok = "a0_min = np.min(shell0.exponents)" in src and "a1_min = np.min(shell1.exponents)" in src and "np.exp(-a0_min * a1_min * rij_norm_sq / (a0_min + a1_min))" in src and "if prefactor_max > 1e-15" in src
